@@ -7,7 +7,12 @@
 (* a "config" record (calls, raw frames, connections, objects) followed by *)
 (* events ordered by the process-wide sequence counter of vhook:           *)
 (*   call k / raw t       harness: a goroutine is about to call / to write *)
-(*   sdisp c ...          server end point read and dispatched a frame      *)
+(*   sdisp c ... res      server end point read and dispatched a frame:      *)
+(*                        res = deliver | nomatch | blocked.  "blocked" is  *)
+(*                        the DROP step of a saturated end point (consumer  *)
+(*                        queue full): the frame is gone; a Call is answered *)
+(*                        by one Error frame carrying its id, written by the *)
+(*                        reader goroutine in the same step, a Post by none  *)
 (*   fw c id              consumer goroutine took a message (firewall)      *)
 (*   recv o ... / done o  mailbox goroutine took a mail / Receive returned  *)
 (*   exec_begin o k / exec_end o k   the method body (harness code)         *)
@@ -46,6 +51,7 @@ TrObjs == {<<1, o>> : o \in SeqSet(Cfg.objs)}
 TrFail == SeqSet(Cfg.fail)
 ReqTypes == {"call", "post"}
 NoMsgs == {}
+NoDev == {}
 TrScript == <<TRUE>>
 CodeFilter == {"call", "post", "capability", "cancel"}
 CallOnly == {"call"}
@@ -67,7 +73,7 @@ Is(name) == ti <= NEv /\ Ev.ev = name
 Adv == ti' = ti + 1
 Quiet == UNCHANGED <<ti, ann>>
 Flags == UNCHANGED <<etake, erecv, open>>
-SrvOnly == UNCHANGED <<sent, cliVars>>
+SrvOnly == UNCHANGED <<sent, cliVars>> /\ Account
 
 TInit == /\ SysInit /\ ti = 2 /\ ann = {}
          /\ etake = [c \in Conns |-> FALSE]
@@ -161,7 +167,7 @@ TRet ==
   /\ cst[Ev.k] = "done" /\ Len(outcome[Ev.k]) >= 1
   /\ outcome[Ev.k][1].kind = Ev.kind /\ outcome[Ev.k][1].val = Ev.val
   /\ cst' = [cst EXCEPT ![Ev.k] = "returned"]
-  /\ Adv /\ UNCHANGED <<netVars, srvVars, histVars, sent, mid, ctr, hnd, outcome, rawSent, ann>> /\ Flags
+  /\ Adv /\ UNCHANGED <<netVars, srvVars, histVars, sent, mid, ctr, hnd, outcome, rawSent, wireVars, ann>> /\ Flags
 
 TNext == \/ TCall \/ TRaw \/ TSDisp \/ TFw \/ TRecv \/ TExecBegin \/ TExecEnd \/ TDone \/ TCDisp \/ TRet
          \/ SilentClient \/ SilentServer
